@@ -49,6 +49,14 @@ func accessPath(v ssa.Value, depth int) string {
 			return uniqueName(v)
 		}
 		callee := cc.StaticCallee()
+		if callee != nil && callee.Signature.Recv() == nil && callee.Pkg != nil && callee.Pkg.Pkg.Path() == "strings" {
+			// pure library function: same arguments, same result
+			parts := make([]string, len(cc.Args))
+			for i, a := range cc.Args {
+				parts[i] = accessPath(a, depth+1)
+			}
+			return "strings." + callee.Name() + "(" + strings.Join(parts, ", ") + ")"
+		}
 		if callee != nil && callee.Signature.Recv() != nil && len(cc.Args) == 1 {
 			name := callee.Name()
 			pk := load.FuncPkg(callee)
